@@ -11,6 +11,12 @@
 (*   mov oA, rB  (send rB on output A)     mov rA, i0  (receive)           *)
 (*   j L   jz rA, L          (t = index of the line that carries label L)  *)
 (*   nop     twice           (a macro of zero parameters: inc r1 ; inc r1)  *)
+(*   asend oA, rB            `X: iomode:async` / `mov oA, rB`: a send whose   *)
+(*                            label line carries metadata for THAT line: the  *)
+(*                            value is put on the port without a handshake,   *)
+(*                            nobody is obliged to take it and nothing is     *)
+(*                            observed; the lines after it are synchronous     *)
+(*                            again                                           *)
 (*   ldk rA, rB, k           two source lines: mov rB, rom:d<k> (the ROM    *)
 (*                            address of data word k) ; mov rA, rom:[rB]    *)
 (*                            (the ROM word at that address)                *)
@@ -56,6 +62,7 @@
 EXTENDS Integers, Sequences, FiniteSets, TLC
 
 CONSTANTS RSize, Len0, Budget, NOut, NCP, NData, EntryAnywhere, DirectiveAnywhere, MacroHeavy, SmallMovOnly,
+          WithAsync, \* TRUE: programs may contain sends annotated `<label>: iomode:async` (the annotation is for that line only)
           WideData   \* TRUE: a data variable may hold several words (`d db a, b`) and repetitions (`d 3:db a, b`)
 
 ASSUME NCP \in {1, 2} /\ (NCP = 2 => NOut = 2)
@@ -89,6 +96,7 @@ Plain  == Unary \cup Binary \cup Loads \cup Other
 Jumps == {L("j", 0, 0, t, "") : t \in 0 .. Len0 - 1} \cup {L("jz", a, 0, t, "") : a \in Regs, t \in 0 .. Len0 - 1}
 Sends == {L("send", o, b, 0, "") : o \in 0 .. NOut - 1, b \in Regs}
 Recvs == {L("recv", a, 0, 0, "") : a \in Regs}
+Asends == {L("asend", o, b, 0, "") : o \in 0 .. NOut - 1, b \in Regs}
 DataSeq == <<0, 1, 5, 33, 128, 255>>
 \* the data variables of processor c for seed d (a few assignments stand for all): the declared values
 \* and the repetition count; the shapes do not depend on the processor (shared code reads both)
@@ -132,6 +140,7 @@ BuildMacro == Add(L("twice", 0, 0, 0, ""), FALSE)
 BuildJump == \E l \in Jumps : Add(l, FALSE)
 BuildSend == \E l \in Sends : Add(l, TRUE)
 BuildRecv == \E l \in Recvs : Add(l, TRUE)
+BuildAsend == \E l \in Asends : Add(l, FALSE)
 DataLines == {L("ldk", a, b, k, Offs[o + 1]) : a \in Regs, b \in Regs, k \in 0 .. NData - 1, o \in 0 .. 5}
 BuildData == \E l \in DataLines : OffOf(l.nt) < Len(Layout(data[0][l.t])) /\ Add(l, FALSE)
 
@@ -221,7 +230,7 @@ Next == \E w \in 1 .. 10 :
                 ELSE IF w <= 7 THEN (IF IoOK THEN BuildSend ELSE BuildLoad)
                 ELSE IF w = 8 THEN (IF IoOK THEN BuildRecv ELSE BuildJump)
                 ELSE IF w = 9 THEN (IF NData > 0 THEN BuildData ELSE BuildUnary)
-                ELSE BuildPlain)
+                ELSE (IF WithAsync THEN BuildAsend ELSE BuildPlain))
           ELSE (w = 1 /\ (Close \/ NextCP \/ Start \/ Exec))
 Spec == Init /\ [][Next]_vars
 
